@@ -545,6 +545,12 @@ func main() {
 	w("def order_tryCommitChanges : List String := %s", leanList(callOrder(p.funcs["Tx.tryCommitChanges"], keys)))
 	w("def order_tryCommitChangesToFile : List String := %s", leanList(callOrder(p.funcs["Tx.tryCommitChangesToFile"], keys)))
 	w("def order_syncNewMeta : List String := %s", leanList(callOrder(p.funcs["Tx.syncNewMeta"], keys)))
+	// queue: each flush and each ACK is one write transaction
+	qkeys := []string{"BeginWrite", "BeginCleanup", "BeginRead", "tx.Commit", "tx.Close", "allocatePages", "flushPages", "updateRootHdr", "page.Free", "LoadRootPage", "initACK", "ackCB", "flushCB"}
+	w("def pq_order_doFlush : List String := %s", leanList(callOrder(q.funcs["Writer.doFlush"], qkeys)))
+	w("def pq_order_cleanup : List String := %s", leanList(callOrder(q.funcs["acker.cleanup"], qkeys)))
+	w("def pq_order_initACK : List String := %s", leanList(callOrder(q.funcs["acker.initACK"], qkeys)))
+	w("def pq_order_flushBuffer : List String := %s", leanList(callOrder(q.funcs["Writer.flushBuffer"], append(qkeys, "doFlush"))))
 	// the switch of the active meta page must come after exclusive.Lock: record statement order
 	var sw []string
 	if fd := p.funcs["Tx.tryCommitChanges"]; fd != nil {
